@@ -18,7 +18,7 @@ import shutil
 
 import numpy as np
 
-from .. import etdrk, linear, nonlin, registry, tlc
+from .. import etdrk, linear, nonlin, registry, tlc, zoo
 from ..evidence import Run
 from ..num import as_map, cq, maxabs, setup_jax, wshape
 from ..tlaval import iter_dump_states
@@ -27,17 +27,19 @@ from .c01 import exact_evolve, nyq_free_state
 PID = "C07"
 INVS = ["LinearOK", "PolarOK", "LinearMapOK", "DBandOK", "EulerOK"]
 QUICK = [
-    ("d1", [1008, 1009], ["conv_mc_cons", "conv_mc_non", "conv_sc_cons", "conv_sc_non", "gradnorm_fix", "gradnorm_nofix", "poly2", "poly3", "general_fix",
+    ("d1", [1009, 1012], ["conv_mc_cons", "conv_mc_non", "conv_sc_cons", "conv_sc_non", "gradnorm_fix", "gradnorm_nofix", "poly2", "poly3", "general_fix",
                           "cahn_hilliard", "gray_scott"]),
-    ("d2", [2005], ["conv_mc_cons", "conv_mc_non", "conv_sc_non", "gradnorm_fix", "general_nofix", "vort2d", "leray"]),
-    ("d3", [3004], ["rot3d", "leray", "conv_mc_non"]),
+    ("d2", [2006], ["conv_mc_cons", "conv_mc_non", "conv_sc_non", "gradnorm_fix", "general_nofix", "vort2d", "leray"]),
+    ("d3", [3004], ["leray"]),
+    ("d3b", [3006], ["rot3d"]),
 ]
 THOROUGH = [
     ("d1", [1008, 1009, 1012, 1015], ["conv_mc_cons", "conv_mc_non", "conv_sc_cons", "conv_sc_non", "gradnorm_fix", "gradnorm_nofix", "poly2", "poly3",
                                       "general_fix", "general_nofix", "cahn_hilliard", "gray_scott"]),
     ("d2", [2005, 2006, 2008], ["conv_mc_cons", "conv_mc_non", "conv_sc_cons", "conv_sc_non", "gradnorm_fix", "general_fix", "general_nofix", "vort2d", "leray", "poly2"]),
     ("d2c", [2006], ["poly3", "cahn_hilliard", "gray_scott"]),
-    ("d3", [3004, 3005], ["rot3d", "leray", "conv_mc_non", "conv_mc_cons", "gradnorm_fix"]),
+    ("d3", [3004, 3005], ["leray"]),
+    ("d3b", [3006], ["rot3d", "conv_mc_non", "conv_mc_cons", "gradnorm_fix"]),
 ]
 FD6 = ((-3, -1 / 60), (-2, 3 / 20), (-1, -3 / 4), (1, 3 / 4), (2, -3 / 20), (3, 1 / 60))
 
@@ -71,6 +73,7 @@ def replay_nonlin(run_, res, ex, jnp, jax, rng):
     for st in iter_dump_states(res.dump, must_contain='pc = "jvp"'):
         groups.setdefault((st["term"], st["D"], st["N"]), []).append((dec(st["inp"]), dec(st["tan"]), dec(st["jvp"])))
     nsamp = 0
+    nonvac, allgroups = set(), set()
     for (term, D, N), cases in sorted(groups.items()):
         fun = nonlin.build(ex, jnp, term, D, N)
 
@@ -104,8 +107,16 @@ def replay_nonlin(run_, res, ex, jnp, jax, rng):
                                  "tangent": [{str(list(k)): [c.real, c.imag] for k, c in f.items()} for f in tan],
                                  "spec_jvp": [{str(list(k)): [c.real, c.imag] for k, c in f.items()} for f in pred]})
                     nsamp += 1
-        run_.nontrivial.add(("jvp", term, D, N))
+        if not any(len(f) > 0 for _, _, pred in cases for f in pred):
+            # a grid whose retained band is (nearly) empty makes every derivative of this term vanish: that replay decides nothing
+            run_.extra.setdefault("vacuous_jvp_groups", []).append(f"{term}/D={D}/N={N}")
+        else:
+            run_.nontrivial.add(("jvp", term, D, N))
+            nonvac.add((term, D))
+        allgroups.add((term, D))
         run_.traces += len(cases)
+    if allgroups - nonvac:
+        raise RuntimeError(f"vacuous jvp replay: every predicted derivative is zero for {sorted(allgroups - nonvac)}")
 
 
 def check_linear(run_, tables, ex, jnp, jax, rng, tier):
@@ -213,7 +224,7 @@ def sweepable(cls):
 def check_semilinear(run_, tab, tables, ex, jnp, jax, rng, tier):
     classes = registry.stepper_classes()
     names = [n for n in sorted(classes) if n not in registry.LINEAR]
-    sizes = {1: 12, 2: 6, 3: 4}
+    sizes = {1: 12, 2: 6, 3: 6}          # the smallest grids on which the dealiased nonlinear terms are not identically zero (cutoff >= 1)
     for name in names:
         cls = classes[name]
         D = registry.dims_of(name)[0]
@@ -423,6 +434,40 @@ def check_wave_and_guards(run_, ex, jnp, jax, rng):
                 run_.violation({"kind": "guard", "cls": "Leray", "D": D, "what": f"grad not finite on the {lab} state"}, {})
 
 
+def check_variants(run_, ex, jnp, jax, rng, tier):
+    """every argument variant (conservative / single-channel forms, mixed-derivative flags, dealiasing fraction 1) of every semi-linear class in
+    every dimension it supports beyond the first: state derivative against central differences of the primal code, reverse = adjoint."""
+    classes = registry.stepper_classes()
+    names = [n for n in sorted(classes) if n not in registry.LINEAR]
+    for name in names:
+        for D in registry.dims_of(name):
+            N = {1: 12, 2: 6, 3: 6}[D]
+            for iv, kw in enumerate(zoo.variants(name, D)):
+                if D == registry.dims_of(name)[0] and not kw:
+                    continue                      # check_semilinear's case
+                if tier == "quick" and D == 3 and (iv + names.index(name)) % 2:
+                    continue
+                has_order = registry.has_order(classes[name])
+                for p in ((1, 2, 3, 4) if tier != "quick" and has_order else ((2 + (iv + D) % 3,) if has_order else (None,))):
+                    st = registry.make(name, D, N, L=3.0, dt=0.02, order=p, **kw)
+                    C = st.num_channels
+                    ju = jnp.asarray(rng.standard_normal((C,) + (N,) * D) * 0.5)
+                    v = rng.standard_normal((C,) + (N,) * D)
+                    w = rng.standard_normal((C,) + (N,) * D)
+                    jv_ = jnp.asarray(v)
+                    key = {"kind": "semilinear-variant", "cls": name, "D": D, "order": p, "form": str(sorted(kw.items()))}
+                    run_.case(("variant", name, D, p, str(kw)))
+                    jv = np.asarray(jax.jvp(st, (ju,), (jv_,))[1])
+                    fdv = fd6(lambda s_: st(ju + s_ * jv_), 0.0, 2e-3)
+                    sc = 1 + maxabs(fdv)
+                    if not np.all(np.isfinite(jv)) or maxabs(jv - fdv) > 2e-8 * sc:
+                        run_.violation(dict(key, what="jvp(state) vs central differences"), {"err": maxabs(jv - fdv), "scale": sc})
+                    back = np.asarray(jax.vjp(st, ju)[1](jnp.asarray(w))[0])
+                    lhs, rhs = float(np.sum(w * jv)), float(np.sum(back * v))
+                    if not np.all(np.isfinite(back)) or abs(lhs - rhs) > 1e-9 * (1 + abs(lhs) + np.sum(np.abs(w)) * maxabs(jv)):
+                        run_.violation(dict(key, what="vjp is not the adjoint of jvp"), {"lhs": lhs, "rhs": rhs})
+
+
 def run(tier: str, seed: int) -> int:
     run_ = Run(PID, tier, seed)
     jax = setup_jax(True)
@@ -455,6 +500,8 @@ def run(tier: str, seed: int) -> int:
     tm["linear"] = round(time.time() - t0, 1)
     check_semilinear(run_, tab, tables, ex, jnp, jax, rng, tier)
     tm["semilinear"] = round(time.time() - t0, 1)
+    check_variants(run_, ex, jnp, jax, rng, tier)
+    tm["variants"] = round(time.time() - t0, 1)
     check_null_eigenvalues(run_, ex, jnp, jax, rng, tier)
     tm["null"] = round(time.time() - t0, 1)
     check_wave_and_guards(run_, ex, jnp, jax, rng)
